@@ -102,6 +102,7 @@ func decompose(exp []Traversal, entries []*Entry, full bool) (bool, string) {
 				continue
 			}
 			e.used = true
+			e.stepIdx = si
 			// does this entry's result allow a next step?
 			cont := e.Ret != 0 && e.RetErr == nil && e.RetEv != nil
 			wantCont := si+1 < len(tr.Steps)
